@@ -13,6 +13,9 @@ expected_variance, support, support_index) keep their explicit-sum references
 (shared with C18.f).
 Round 4: no mutable default argument of math.discrete / math.measures is kept or
 mutated; the helpers impose_measure applies keep their references.
+Round 5 (hunt): scenario.update stores all given values (repair d40c5ba); the
+default weights are taken only for `weights is None` / empty (repair 1a6156e);
+_flat flattens array slices (repair 11b6398).
 NOT decided: round-trip equality of values, Cartesian order of _pack, update
 on ragged input.
 """
@@ -316,3 +319,29 @@ def measures_do_not_share_a_default_container(ctx):
                     % (fi.qualname, pname, how, pname), fi, node)
         if not found:
             ctx.ok(mname + '#defaults', '%d functions: no mutable default argument is kept or mutated' % n, next(iter(m.funcs.values())), m.tree)
+
+
+@rule('C19.j', min_instances=2)
+def given_weights_are_never_replaced_by_the_default(ctx):
+    """compose / _list_of_measures fall back to uniform weights when no weights are GIVEN; that is decided by `weights is None` (or an empty container), never by the truth value of the weights themselves: `not weights` is true for a 1x1 array holding the weight 0.0 (the given zero weight was replaced by 1.0 - compose / decompose no longer inverses "including zeros") and raises for larger arrays"""
+    n = 0
+    for a in (DS + ':compose', DS + ':_list_of_measures'):
+        f = ctx.func(a)
+        ctx.need('weights' in f.args(), '%s: no weights parameter' % f.qualname)
+        dflt = [s for s in stmts_of(f.node) if isinstance(s, ast.If) and any(isinstance(x, ast.Assign) and any(isinstance(t_, ast.Name) and t_.id == 'weights' for t_ in x.targets) for x in s.body)]
+        ctx.need(dflt, '%s: the default for missing weights is not found' % f.qualname)
+        for st in dflt:
+            n += 1
+
+            def truthiness(e):
+                # a bare truth test of the parameter (possibly negated), anywhere in the condition
+                if isinstance(e, ast.UnaryOp) and isinstance(e.op, ast.Not):
+                    return truthiness(e.operand)
+                if isinstance(e, ast.BoolOp):
+                    # `weights is None or not len(weights)`: after an `is None` alternative the rest may only use len()
+                    return any(truthiness(v) for v in e.values)
+                return isinstance(e, ast.Name) and e.id == 'weights'
+            ctx.check(not truthiness(st.test), '%s#default' % f.qualname, 'uniform weights only when weights is None / empty (%s)' % ' '.join(unparse(st.test).split()),
+                      '%s decides "no weights given" by the truth value of the weights (%s): a single zero weight given as an array is replaced by a uniform weight, a larger array raises'
+                      % (f.qualname, ' '.join(unparse(st.test).split())), f, st)
+    ctx.need(n >= 2, 'expected the weight defaults of compose and _list_of_measures, found %d' % n)
